@@ -34,6 +34,16 @@ def gen_cases(fam, tier):
                 p = list(base)
                 p[k] = lit
                 yield {'ent': ename, 'form': form, 'attr': k, 'owner': owner, 'text': sp.file([smodel.inst_text(10, E, p)]), 'complex': False}
+        # one attribute unset while the OTHER attribute of a two-attribute entity takes every literal alternative of its kind (what the writer and
+        # the instance's state make of the substituted instance depends on its other values)
+        if len(pa) == 2 and not any(r for _, _, r in pa):
+            for k in (0, 1):
+                o = 1 - k
+                for lit in sp.lits.alts(pa[o][1].type)[1:]:
+                    p = list(base)
+                    p[o] = lit
+                    p[k] = '$'
+                    yield {'ent': ename, 'form': '$', 'attr': k, 'owner': pa[k][0], 'text': sp.file([smodel.inst_text(10, E, p)]), 'complex': False, 'other': lit}
         # two unset attributes in one instance (the severity of the instance is the worst of its attributes, not the last)
         if len(pa) == 2 and not any(r for _, _, r in pa):
             for l0, l1 in (('$', '$'), ('$', ''), ('', '$')):
